@@ -535,6 +535,7 @@ func init() {
 				store["f2.txt"] = []string{"old line"}
 			}
 			out := ""
+			usesW := false
 			ops := []string{}
 			nops := 3 + r.Intn(8)
 			for k := 0; k < nops; k++ {
@@ -547,6 +548,46 @@ func init() {
 					ci = len(contents) - 1
 				}
 				p := paths[pi]
+				if shape := r.Intn(10); shape < 3 {
+					switch shape {
+					case 0: // a write in a branch that is taken or not
+						taken := r.Intn(2) == 0
+						cond := "1 == 2"
+						if taken {
+							cond = "2 == 2"
+						}
+						app := r.Intn(2) == 0
+						a := ""
+						if app {
+							a = ", true"
+						}
+						lines = append(lines, fmt.Sprintf("if %s {", cond), fmt.Sprintf("\twrite(%s, %s%s)", pexpr[pi], cexpr[ci], a), "}")
+						if taken {
+							if app {
+								store[p] = append(store[p], contents[ci])
+								ops = append(ops, "w."+hx(p)+"."+hx(contents[ci])+".1")
+							} else {
+								store[p] = []string{contents[ci]}
+								ops = append(ops, "w."+hx(p)+"."+hx(contents[ci])+".0")
+							}
+						}
+					case 1: // a write performed by a function that was defined before any top-level write
+						lines = append(lines, fmt.Sprintf(`print(wfile(%s, %s))`, pexpr[pi], cexpr[ci]))
+						store[p] = []string{contents[ci]}
+						ops = append(ops, "w."+hx(p)+"."+hx(contents[ci])+".0.k")
+						out += "k\n"
+						usesW = true
+					default: // a read whose later sibling writes the same path
+						if _, ok := store[p]; ok {
+							lines = append(lines, fmt.Sprintf(`print(read(%s), wfile(%s, %s))`, pexpr[pi], pexpr[pi], cexpr[ci]))
+							out += strings.Join(store[p], "\n") + " k\n"
+							ops = append(ops, "r."+hx(p)+".k", "w."+hx(p)+"."+hx(contents[ci])+".0")
+							store[p] = []string{contents[ci]}
+							usesW = true
+						}
+					}
+					continue
+				}
 				switch op := r.Intn(8); {
 				case op < 2:
 					lines = append(lines, fmt.Sprintf("write(%s, %s)", pexpr[pi], cexpr[ci]))
@@ -605,6 +646,9 @@ func init() {
 			} else {
 				src = strings.Join(lines, "\n") + "\n"
 			}
+			if usesW {
+				src = "func wfile(p string, c string) string {\n\twrite(p, c)\n\treturn \"k\"\n}\n" + src
+			}
 			f := progFields("main.tsh", map[string]string{"main.tsh": src}, false)
 			sin := "-"
 			if stdin != "" {
@@ -659,6 +703,13 @@ func init() {
 				args[j] = c.s
 				tag = origin + "/" + c.class
 			}
+			usesMk := false
+			for j := range exprs {
+				if r.Intn(5) == 0 { // the argument is directly a function call
+					exprs[j] = "mk(" + exprs[j] + ")"
+					usesMk = true
+				}
+			}
 			status := 0
 			if r.Intn(2) == 0 {
 				status = []int{1, 2, 7, 42, 127, 200, 255}[r.Intn(7)]
@@ -702,6 +753,9 @@ func init() {
 				src = "func body0() {\n\t" + strings.Join(lines, "\n\t") + "\n}\nbody0()\n"
 			} else {
 				src = strings.Join(lines, "\n") + "\n"
+			}
+			if usesMk {
+				src = "func mk(s string) string {\n\treturn s\n}\n" + src
 			}
 			f := progFields("main.tsh", map[string]string{"main.tsh": src}, false)
 			sin := "-"
